@@ -9,6 +9,7 @@ func init() {
 }
 
 var vC09Strs = []string{"", "a", "汉\"q\\", "line\nbreak\t\x01", "{\"t\":0}"}
+var vC09Keys = []string{"a", "k\vv", "\x01\x7f", "汉 \\", "\U000e0001x", "<>&\u2028"}
 var vC09Floats = []float64{0, 1.5, -2.25, 1e300, 5e-324, 3}
 
 // vC09Value builds script values with symbolic integer payloads, strings
@@ -38,6 +39,10 @@ func vC09Value(label string, depth int) *VMValue {
 		k := vChoice(label+"_len", 3)
 		m := &ValueMap{}
 		keys := []string{"a", "b\"c"}
+		if label == "v" && k > 0 {
+			// keys a script can write: control characters, DEL, non-printable runes
+			keys[0] = vC09Keys[vChoice(label+"_key", len(vC09Keys))]
+		}
 		for i := 0; i < k; i++ {
 			m.Store(keys[i], vC09Value(label+"_v", depth-1))
 		}
@@ -173,7 +178,7 @@ func vHasMultiDict(v *VMValue) bool {
 	return false
 }
 
-//vh:prop=C09 tiers=quick,thorough sigkeys=v_kind unwind=8 unwind_ok=1 budget_s=2400 quick:P.depth=1 thorough:P.depth=2 bounds="every value tree of depth <= 1 (quick) / 2 (thorough), containers of 0..2 elements, built from integers (64-bit symbols), finite floats (6 representatives incl. the smallest subnormal and 1e300), strings with quotes, backslashes, control characters, multi-byte runes and JSON-looking text, null, arrays, dicts, computed values with and without attributes, functions and native functions: ToJSON then VMValueFromJSON gives no error and a structurally equal value with equal repr; variable maps likewise (Attrs.ToJSON / UnmarshalJSON)"
+//vh:prop=C09 tiers=quick,thorough sigkeys=v_kind unwind=8 unwind_ok=1 budget_s=2400 quick:P.depth=1 thorough:P.depth=2 bounds="every value tree of depth <= 1 (quick) / 2 (thorough), containers of 0..2 elements, built from integers (64-bit symbols), finite floats (6 representatives incl. the smallest subnormal and 1e300), strings with quotes, backslashes, control characters, multi-byte runes and JSON-looking text, null, arrays, dicts (the outermost one with a key from 6 hostile spellings: vertical tab, 0x01 / DEL, backslash, a non-printable rune above U+FFFF, HTML / U+2028 characters), computed values with and without attributes, functions and native functions: ToJSON then VMValueFromJSON gives no error and a structurally equal value with equal repr; variable maps likewise (Attrs.ToJSON / UnmarshalJSON)"
 func VH_C09_roundtrip() {
 	v := vC09Value("v", vParam("depth", 1))
 	shared := vChoice("shared", 2) == 1
